@@ -39,8 +39,8 @@ func (c *Ctx) Emit(tag string, input W, obs W) {
 
 type Engine struct {
 	Name string
-	Gen  func(c *Ctx)                 // generate + run + emit
-	One  func(c *Ctx, input string)   // replay a single wire input (optional)
+	Gen  func(c *Ctx)               // generate + run + emit
+	One  func(c *Ctx, input string) // replay a single wire input (optional)
 }
 
 var engines = map[string]*Engine{}
